@@ -154,3 +154,11 @@ Example merge_example :
   merge_props (V := N) [([([97], 1); ([98], 2)], [[97]]); ([([98], 3); ([99], 4)], [[99]])]
   = [([97], 1); ([98], 2); ([99], 4)].
 Proof. reflexivity. Qed.
+
+(* non-vacuity for members WITHOUT properties (the tightening idiom allOf:[{$ref: Base}, {required:[b]}]): the theorem
+   quantifies over them like over any other member, and their `required` list is part of the union *)
+Example merge_required_only_member :
+  let ms : list (@member N) := [([([97], 1); ([98], 2)], [[97]]); ([], [[98]])] in
+  merge_props ms = [([97], 1); ([98], 2)] /\ merge_req [] ms = [[97]; [98]]
+  /\ (In [98] (merge_req [] ms) <-> In [98] [] \/ exists m, In m ms /\ In [98] (snd m)).
+Proof. split; [reflexivity|]. split; [reflexivity|]. apply merge_req_spec. Qed.
